@@ -4,6 +4,7 @@ import (
 	"sort"
 	"fmt"
 	"go/token"
+	"go/types"
 	"strings"
 
 	"golang.org/x/tools/go/ssa"
@@ -23,6 +24,7 @@ func init() {
 			"C16.R4 per-iteration limit test in byte-wise producers (shared with C09.R2)",
 			"C16.R5 only the last pipeline stage is bounded",
 			"C16.R6 WMC: decode-side drains are limited readers or table entries behind a no-limit test",
+			"C16.R7 siblings: every filter value built in pkg/filter stores baseFilter.maxDecodeBytes (not the constant 0)",
 		},
 		Assumptions: []string{"io.LimitedReader / io.CopyN semantics", "decodeLimit returns maxLen when maxLen >= 0 and the configured limit otherwise (C09.R1 checks the plumbing)"},
 		Technique:   "edge-relation extraction on SSA (comparison operator normalised by operand order and branch taken), value-origin slices for the limit operand",
@@ -107,6 +109,8 @@ func runC16(c *Ctx) {
 	checkProducingLoopsAs(c, "C16.R4")
 	// ---- R5: in a filter pipeline only the last stage is bounded
 	r.MinInst["C16.R5"] = 1
+	r.MinInst["C16.R7"] = 7
+	checkFilterValuesCarryLimit(c)
 	checkPipelineBoundLastStage(c)
 	// ---- R2 / R3 in copyDecoded
 	if fn := p.Func("pkg/filter.(baseFilter).copyDecoded"); fn == nil {
@@ -612,4 +616,106 @@ func isMaxInt64(v ssa.Value) bool {
 		}
 	}
 	return false
+}
+
+// ---------------- C16.R7 (round 4 seed C16-D): every filter value carries the configured limit ----------------
+
+// checkFilterValuesCarryLimit: the limit reaches a decoder through one field, baseFilter.maxDecodeBytes; a zero there
+// means "the 512 MiB default" (baseFilter.decodeLimit). Every composite value of baseFilter (alone or embedded in a
+// filter type) that pkg/filter builds must therefore store that field, and not the constant 0; a literal that
+// leaves it out makes that one filter ignore the configuration while its siblings honour it.
+func checkFilterValuesCarryLimit(c *Ctx) {
+	p, r := c.P, c.R
+	n := 0
+	isBase := func(t types.Type) bool {
+		return strings.HasSuffix(types.Unalias(t).String(), "pkg/filter.baseFilter")
+	}
+	for _, fn := range p.Funcs {
+		if fn.Pkg == nil || fn.Pkg.Pkg.Path() != modPath+"/pkg/filter" || !isSubject(fn) {
+			continue
+		}
+		k := 0
+		eachInstr(fn, func(_ *ssa.BasicBlock, _ int, i ssa.Instruction) {
+			al, ok := i.(*ssa.Alloc)
+			if !ok {
+				return
+			}
+			st, ok := al.Type().(*types.Pointer).Elem().Underlying().(*types.Struct)
+			if !ok {
+				return
+			}
+			elem := al.Type().(*types.Pointer).Elem()
+			embeds := isBase(elem)
+			if !embeds {
+				for f := 0; f < st.NumFields(); f++ {
+					if st.Field(f).Embedded() && isBase(st.Field(f).Type()) {
+						embeds = true
+					}
+				}
+			}
+			if !embeds || al.Comment != "complit" {
+				return
+			}
+			if !isBase(elem) {
+				// the embedded baseFilter is usually built as a literal of its own and copied in: that literal is the obligation
+				whole := false
+				for _, rf := range *al.Referrers() {
+					if fa, ok := rf.(*ssa.FieldAddr); ok {
+						if f := structField(fa.X.Type(), fa.Field); f != nil && isBase(f.Type()) && fa.Referrers() != nil {
+							for _, r2 := range *fa.Referrers() {
+								if s, ok := r2.(*ssa.Store); ok && s.Addr == ssa.Value(fa) {
+									whole = true
+								}
+							}
+						}
+					}
+				}
+				if whole {
+					return
+				}
+			}
+			k++
+			n++
+			construct := fmt.Sprintf("%s literal#%d", typeNameOf(elem), k)
+			// stores into …maxDecodeBytes below this alloc
+			var stored []ssa.Value
+			var walk func(v ssa.Value, d int)
+			walk = func(v ssa.Value, d int) {
+				if d > 3 || v.Referrers() == nil {
+					return
+				}
+				for _, rf := range *v.Referrers() {
+					fa, ok := rf.(*ssa.FieldAddr)
+					if !ok {
+						continue
+					}
+					f := structField(fa.X.Type(), fa.Field)
+					if f == nil {
+						continue
+					}
+					if f.Name() == "maxDecodeBytes" {
+						for _, r2 := range *fa.Referrers() {
+							if s, ok := r2.(*ssa.Store); ok && s.Addr == ssa.Value(fa) {
+								stored = append(stored, s.Val)
+							}
+						}
+					} else if isBase(f.Type()) {
+						walk(fa, d+1)
+					}
+				}
+			}
+			walk(al, 0)
+			switch {
+			case len(stored) == 0:
+				r.Bad("C16.R7", FuncID(fn), construct, p.Pos(al.Pos()), "a filter value is built without maxDecodeBytes: baseFilter.decodeLimit reads the zero as the 512 MiB default, so this filter ignores a configured decode limit that its siblings enforce")
+			case isZeroConst(stored[0]):
+				r.Bad("C16.R7", FuncID(fn), construct, p.Pos(al.Pos()), "a filter value is built with maxDecodeBytes = 0 (read as the 512 MiB default): the configured limit is not handed on")
+			default:
+				r.OK("C16.R7", FuncID(fn), construct, p.Pos(al.Pos()), "maxDecodeBytes is stored from "+exprName(stored[0]), true)
+			}
+		})
+	}
+	if n == 0 {
+		r.Bad("C16.R7", "pkg/filter.NewFilter", "anchor", "", "UNRESOLVED-ANCHOR: no composite literal of a filter type found in pkg/filter")
+	}
 }
